@@ -58,7 +58,7 @@ func sequenceOrder(a, b []Object, op func(a, b Object) (Object, error), lenOp fu
 	}
 	defer leaveContainer()
 	for i := 0; i < len(a) && i < len(b); i++ {
-		eq, err := Eq(a[i], b[i])
+		eq, err := ItemEq(a[i], b[i])
 		if err != nil {
 			return nil, err
 		}
@@ -218,7 +218,7 @@ func SequenceContains(seq, obj Object) (found bool, err error) {
 	var loopErr error
 	err = Iterate(seq, func(item Object) bool {
 		var eq Object
-		eq, loopErr = Eq(item, obj)
+		eq, loopErr = ItemEq(item, obj)
 		if loopErr != nil {
 			return true
 		}
